@@ -1519,7 +1519,27 @@ class Engine:
                 lo, hi = bind_range(expr)
                 levels.append((target, rng(lo, hi)))
 
-        if is_lib(fn, 'product'):
+        lit_guard = None
+        if is_lib(fn, 'permutations') and len(s.iter.args) == 2 and isinstance(s.iter.args[1], ast.Constant) and s.iter.args[1].value in (2, 3):
+            # permutations(R, r) of an integer range, in itertools order = r nested loops over R keeping the tuples without repetition
+            r = s.iter.args[1].value
+            if not (isinstance(s.target, ast.Tuple) and len(s.target.elts) == r and all(isinstance(x, ast.Name) for x in s.target.elts)):
+                raise Unsupported('permutations(.., r) needs a target of r names')
+            lo, hi = bind_range(s.iter.args[0])
+            names = [x.id for x in s.target.elts]
+            for x in s.target.elts:
+                levels.append((x, rng(lo, hi)))
+            lit_guard = ast.parse(' and '.join('{} != {}'.format(names[i], names[j]) for i in range(r) for j in range(i + 1, r)), mode='eval').body
+        elif is_lib(fn, 'combinations') and len(s.iter.args) == 2 and isinstance(s.iter.args[1], ast.Constant) and s.iter.args[1].value == 3:
+            # combinations(R, 3): a < b < c
+            if not (isinstance(s.target, ast.Tuple) and len(s.target.elts) == 3 and all(isinstance(x, ast.Name) for x in s.target.elts)):
+                raise Unsupported('combinations(.., 3) needs a target (a, b, c)')
+            lo, hi = bind_range(s.iter.args[0])
+            a_, b_, c_ = s.target.elts
+            levels.append((a_, rng(lo, hi)))
+            levels.append((b_, rng(a_.id + ' + 1', hi)))
+            levels.append((c_, rng(b_.id + ' + 1', hi)))
+        elif is_lib(fn, 'product'):
             if not (isinstance(s.target, ast.Tuple) and len(s.target.elts) == len(s.iter.args)):
                 raise Unsupported('product(...) needs one target per factor')
             for expr, tgt in zip(s.iter.args, s.target.elts):
@@ -1532,6 +1552,9 @@ class Engine:
             raise Unsupported('loop #{}: {} nest levels declared, {} needed'.format(k, len(spec['nest']), len(levels)))
         self.synthetic_specs = getattr(self, 'synthetic_specs', {})
         body = list(s.body)
+        if lit_guard is not None:
+            body = [ast.If(test=lit_guard, body=body, orelse=[], lineno=s.lineno, col_offset=s.col_offset,
+                           end_lineno=s.end_lineno, end_col_offset=s.end_col_offset)]
         node = None
         for lvl in range(len(levels) - 1, -1, -1):
             tgt, it = levels[lvl]
@@ -3450,7 +3473,7 @@ def sf_mapcall(eng, node, g, n, m, index):
 
 
 SPEC_FUNCS = {
-    'combs2': lambda eng, node, lo, hi: VCombs2(toz(lo), toz(hi)), 'cvar': _wrap(specs.cvar), 'degsum': _wrap(specs.degsum), 'gadj': _wrap(specs.gadj), 'lnbrs': _wrap(specs.lnbrs),
+    'combs2': lambda eng, node, lo, hi: VCombs2(toz(lo), toz(hi)), 'cvar': _wrap(specs.cvar), 'degsum': _wrap(specs.degsum), 'gadj': _wrap(specs.gadj), 'pvar': _wrap(specs.pvar), 'lnbrs': _wrap(specs.lnbrs),
     'mapcall': sf_mapcall, 'mrow': _wrap(specs.mrow), 'mcol': _wrap(specs.mcol),
     'evnest': _wrap(specs.evnest), 'dedges': _wrap(specs.dedges),
     'yxdom': _wrap(specs.yxdom),
